@@ -702,7 +702,10 @@ def harnesses(tier: str) -> List[Harness]:
             per_n[3] += _slices(3, 1, listener, -1, 2, True)
             per_n[3] += _slices(3, 2, listener, -1, 2, True, idle=0)
             per_n[3] += _slices(3, 2, listener, -1, 3, True)
-    return [Harness("disconnect_history_n%d" % n, H_DISC[n], sl, budget_s=150 if q else 800) for n, sl in per_n.items() if sl]
+    # per_path_timeout also bounds a single z3 query (half of it): generous, a query on these integer
+    # constraints takes milliseconds unless the machine is heavily oversubscribed
+    return [Harness("disconnect_history_n%d" % n, H_DISC[n], sl, budget_s=150 if q else 800, per_path_timeout=120.0)
+            for n, sl in per_n.items() if sl]
 
 
 def _tag(rep) -> str:
